@@ -299,6 +299,10 @@ class Ctx:
             info = mod.run_case(spec, self)
         except CaseAborted:
             pass
+        except Exception as e:      # noqa: BLE001
+            if type(e).__name__ != "EmptyReference":
+                raise
+            self.inconclusive_case("empty-reference-set")
         finally:
             self.spec = None
         if count:
